@@ -110,6 +110,8 @@ def Fs.children (fs : Fs) (dir : Bytes) : List (Bytes × Bytes) :=
 
 /-- `filepath.Walk`: the non-directory paths in lexical order; `none` = the root is missing -/
 def Fs.walk (fs : Fs) (root : Bytes) : Option (List Bytes) :=
+  if cleanPath root == [46] then some (go fs.length [46])   -- the working directory itself
+  else
   match fs.get root with
   | none => none
   | some .dir => some (go fs.length root)
